@@ -118,6 +118,7 @@ MUTATIONS: list[tuple[str, str, str, str, list[str]]] = [
     ("c09-mw-dies-on-old-sample", SRC + "timeseries/_moving_window.py", "                    except IndexError as err:", "                    except ZeroDivisionError as err:", ["C09"]),
     ("c17-plain-sum-in-get-bounds", SRC + "microgrid/_power_distributing/_component_managers/_battery_manager.py", "            exclusion_upper=math.fsum(", "            exclusion_upper=1.0000000000000002 * math.fsum(", ["C17"]),
     ("c12-grid-meter-fallback", FGEN, "        if graph.is_grid_meter(meter):\n            return set()", "        if False:\n            return set()", ["C12"]),
+    ("c12-battery-fallback-over-batteries", SRC + "timeseries/formula_engine/_formula_generators/_battery_power_formula.py", "            fallback_ids = {c.component_id for c in fallback_components}", "            fallback_ids = {c.component_id for c in fallback_components} | {i.component_id for i in inv_bat_mapping}", ["C12"]),
     ("c06-3phase-no-sync", FE, "                while not phase_1.timestamp == phase_2.timestamp == phase_3.timestamp:", "                while False:", ["C06"]),
     ("c05-builder-mutates-operand", FE, "        builder = self._copy()\n        builder._steps.appendleft((TokenType.OPER, \"(\"))\n        builder._steps.append((TokenType.OPER, \")\"))\n        builder._steps.append((TokenType.OPER, oper))", "        builder = self\n        builder._steps.appendleft((TokenType.OPER, \"(\"))\n        builder._steps.append((TokenType.OPER, \")\"))\n        builder._steps.append((TokenType.OPER, oper))", ["C05"]),
     ("c12-meter-primary-for-subset", FGEN, ") and graph.successors(predecessor.component_id).issubset(\n                        components\n                    ):", ") and True:", ["C12"]),
